@@ -2,7 +2,7 @@ from common import KERNEL, CORR
 
 PROP = dict(
     level="proof",
-    generators=["C11"],
+    generators=["C11", "C01Lazy"],   # the lazily built FLV tag of a published message too (what flv consumers and the recording get)
     trusted_base=[
         KERNEL, CORR,
         "Spec/FlvSpec.lean is the reading of Adobe FLV v10.1 Annex E used as 'conforming parser'; Spec/WsSpec.lean the reading of RFC 6455 §5.2",
